@@ -594,9 +594,19 @@ func runC02(t *testing.T, r *vh.Report, w c02Work) {
 		factor := factorOf(bad, good)
 		d := first.Diffs[0]
 
+		// the key names the first @test that differs (not the rows that happened to be
+		// drawn this time), so it is the same for every seed and tier
+		for _, x := range first.Diffs {
+			if x.Test != "<file>" {
+				d = x
+
+				break
+			}
+		}
+
 		r.Count("mismatching-corpus-file-mode-pairs", 1)
 		r.Violate(vh.Violation{
-			Key: "corpus:" + k.rel + ":" + factor,
+			Key: "corpus:" + k.rel + ":" + slug(d.Test),
 			Desc: fmt.Sprintf("corpus file tests/%s, types=%s: %d of %d configurations differ from the baseline (explained by: %s); first: %s, @test %q: baseline %q, observed %q",
 				k.rel, k.mode, len(bad), len(w.rows), factor, cfgKey(first.Cfg), d.Test, d.Baseline, d.Got),
 			Case:     map[string]any{"kind": "corpus", "rel": k.rel, "mode": k.mode, "cfg": first.Cfg},
